@@ -18,7 +18,11 @@ impl TryFrom<TimeDelta> for crate::Duration {
     type Error = TimeError;
 
     fn try_from(value: TimeDelta) -> Result<Self, Self::Error> {
-        let nanos = value.num_nanoseconds().ok_or(TimeError::InvalidDuration)? as u64;
+        let nanos = value
+            .num_nanoseconds()
+            .ok_or(TimeError::InvalidDuration)?
+            .try_into()
+            .map_err(|_| TimeError::InvalidDuration)?;
         Ok(Self { nanos })
     }
 }
